@@ -2,6 +2,7 @@ SPECIFICATION Spec
 CONSTANTS
   ClosesPipeOnBuildError = TRUE
   ClosesFilesOnParamsError = FALSE
+  CopyMarksEndSeen = FALSE
   CancelsBeforeClose = FALSE
   ClosesFilesOnFieldError = TRUE
   FileLen = 2
